@@ -1,11 +1,103 @@
-/- Oracle operations, group Stream (see /verif/CONVENTIONS.md). -/
+/- Oracle operations, group Stream (see /verif/CONVENTIONS.md).
+
+`stream.validate <mode> <from> <n> <p> <lazy> <chainseed> <faults> <cancel> <choices> <events>`
+answers whether the observed event sequence is a trace of the transition system `Model/Stream.lean` for
+the parameters (mode, from, from+n-1, p): `ok valid` | `ok invalid <index of the first impossible event>`.
+The schedule fields (lazy … choices) describe how the harness produced the trace and are not read. -/
 import BtcVerif.Oracle.Util
+import BtcVerif.Model.Stream
 
 namespace BtcVerif.Oracle
 open BtcVerif
+open BtcVerif.Model.Stream
+
+namespace StreamOp
+
+def parseMode : String → Option Mode
+  | "o" => some .ordered
+  | "u" => some .unordered
+  | "x" => some .utxo
+  | _ => none
+
+/-- a height index relative to `from` (may be negative in a trace of broken code: then no event) -/
+def parseHeight (lo : Nat) (cs : List Char) : Option Nat :=
+  match cs with
+  | '-' :: _ => none
+  | _ => (String.ofList cs).toNat?.map (lo + ·)
+
+def parseOutc : List Char → Option Outc
+  | ['o'] => some .ok
+  | ['e'] => some .err
+  | ['n'] => some .nolink
+  | _ => none
+
+def parseKind : Char → Option Kind
+  | 'h' => some .hash
+  | 'b' => some .block
+  | _ => none
+
+def parseEvent (lo : Nat) (tok : String) : Option Event :=
+  match tok with
+  | "end" => some .endOfStream
+  | "err" => some .error
+  | "c" => some .cancel
+  | "uo" => some (.utxoReturn true)
+  | "ue" => some (.utxoReturn false)
+  | _ =>
+    match tok.toList with
+    | 'd' :: rest => (parseHeight lo rest).map .deliver
+    | 'q' :: rest =>
+      match rest.reverse with
+      | k :: hr => do
+        let kind ← parseKind k
+        let h ← parseHeight lo hr.reverse
+        pure (.req h kind)
+      | [] => none
+    | 'r' :: rest =>
+      match (String.ofList rest).splitOn ":" with
+      | [a, o] =>
+        match a.toList.reverse with
+        | k :: hr => do
+          let kind ← parseKind k
+          let h ← parseHeight lo hr.reverse
+          let oc ← parseOutc o.toList
+          pure (.rsp h kind oc)
+        | [] => none
+      | _ => none
+    | _ => none
+
+/-- events up to the first token that is no event of the model (its index is then the verdict) -/
+def parseEvents (lo : Nat) : List String → List Event × Option Nat
+  | toks =>
+    let rec go (i : Nat) (acc : List Event) : List String → List Event × Option Nat
+      | [] => (acc.reverse, none)
+      | t :: ts =>
+        match parseEvent lo t with
+        | some e => go (i + 1) (e :: acc) ts
+        | none => (acc.reverse, some i)
+    go 0 [] toks
+
+def validate (mode from_ n p events : String) : Option String := do
+  let m ← parseMode mode
+  let lo ← from_.toNat?
+  let n ← n.toNat?
+  let p ← p.toNat?
+  if n = 0 then none
+  let P : Params := { mode := m, lo := lo, hi := lo + n - 1, p := p }
+  if events = "*" then return "ok valid"
+  let toks := if events = "-" then [] else events.splitOn ","
+  let (es, bad) := parseEvents lo toks
+  match firstInvalid P es, bad with
+  | some i, _ => return s!"ok invalid {i}"
+  | none, some i => return s!"ok invalid {i}"
+  | none, none => return "ok valid"
+
+end StreamOp
 
 def opStream (op : String) (args : List String) : Option String :=
   match op, args with
+  | "stream.validate", [mode, from_, n, p, _lazy, _seed, _faults, _cancel, _choices, events] =>
+    some ((StreamOp.validate mode from_ n p events).getD "err")
   | _, _ => none
 
 end BtcVerif.Oracle
